@@ -118,9 +118,92 @@ class Attr:
         return (self.commit, self.author, self.ts)
 
 
-def blame_line(a, n, code, pad_a=1, pad_b=1):
-    return "%s%s (%s%s%s%s%d)%s" % (a.commit, (" " + a.file) if a.file else "", a.author, " " * pad_a, a.ts,
+def blame_line(a, n, code, pad_a=1, pad_b=1, col=None):
+    """`col`: what stands between the commit and `(` on this line instead of the attribution's file column
+    (`git blame -n` / `-f -n` / `-M -C`: the original line number, with or without the original file name)."""
+    c = col if col is not None else a.file
+    return "%s%s (%s%s%s%s%d)%s" % (a.commit, (" " + c) if c else "", a.author, " " * pad_a, a.ts,
                                      " " * pad_b, n, code)
+
+
+# ---- line numbers of a blame stream. `git blame <file>` numbers the lines 1, 2, 3 ...; several `-L` ranges leave
+#      forward gaps (also inside one commit); wrappers that print selected ranges, a second listing in the same
+#      stream, `--reverse` walks and concatenated outputs jump backwards or repeat numbers; `-n` / `-M` / `-C` add a
+#      column of *original* numbers that jump whenever a block was moved.
+NUMBER_SCHEMES = ("consecutive", "ranges", "ranges-unordered", "repeat", "random", "descending", "second-listing", "moved", "huge")
+
+
+def gen_numbers(rng, L, scheme):
+    """-> (numbers, cols): L line numbers following `scheme`, and per line the extra column or None."""
+    cols = [None] * L
+    if scheme == "consecutive":
+        n0 = rng.choice([1, 1, 1, 95, 995, 9998])
+        return [n0 + i for i in range(L)], cols
+    if scheme in ("ranges", "ranges-unordered"):
+        # 2-5 `-L` ranges; the cuts fall anywhere, also in the middle of a run of one commit
+        k = min(L, rng.choice([2, 2, 3, 4, 5]))
+        cuts = sorted(rng.sample(range(1, L), k - 1)) if L > 1 else []
+        out, n = [], rng.choice([1, 3, 10, 120])
+        for i in range(L):
+            if i in cuts:
+                if scheme == "ranges":
+                    n += rng.choice([1, 1, 2, 5, 30, 70, 1000])        # a gap of 1 = the next line after a missing one
+                else:
+                    n = rng.choice([1, 2, 10, 50, n, max(1, n - 3), rng.randint(1, 400)])
+                    n -= 1
+            n += 1
+            out.append(n)
+        return out, cols
+    if scheme == "repeat":
+        out, n = [], rng.choice([1, 7, 120])
+        for i in range(L):
+            if i == 0 or rng.random() < 0.55:
+                n += 1
+            out.append(n)
+        return out, cols
+    if scheme == "random":
+        return [rng.randint(0, 60) for _ in range(L)], cols
+    if scheme == "descending":
+        n0 = rng.choice([L, L + 5, 300])
+        return [n0 - i for i in range(L)], cols
+    if scheme == "second-listing":
+        h = max(1, L // 2)
+        return [1 + i for i in range(h)] + [1 + i for i in range(L - h)], cols
+    if scheme == "moved":
+        # final numbers are consecutive; the column of original numbers (and file names) jumps
+        kind = rng.choice(["n", "fn"])
+        orig, o = [], rng.choice([1, 40])
+        for i in range(L):
+            if i and rng.random() < 0.3:
+                o = rng.randint(1, 500)
+            o += 1
+            orig.append(o)
+        f = rng.choice(["old/name.rs", "a-b_c.txt", "dir with space/f.c"])
+        cols = [("%s %d" % (f, o)) if kind == "fn" else ("%d" % o) for o in orig]
+        n0 = rng.choice([1, 95])
+        return [n0 + i for i in range(L)], cols
+    if scheme == "huge":
+        top = 2 ** 64 - 1
+        if rng.random() < 0.5:
+            return [top - (L - 1) + i for i in range(L)], cols
+        return [rng.choice([top, top - 1, top - 2, 1, 2 ** 63]) for _ in range(L)], cols
+    raise ValueError(scheme)
+
+
+def number_relation(items, i):
+    """How the number of line i relates to the line above *of the same attribution* (None: first line, other
+    attribution, or simply the next number)."""
+    if i <= 0 or i >= len(items) or items[i - 1]["attr"].tup() != items[i]["attr"].tup():
+        return None
+    a, b = items[i - 1]["n"], items[i]["n"]
+    if b == a + 1:
+        return None
+    return "line-number-gap" if b > a + 1 else ("line-number-repeat" if b == a else "line-number-backward")
+
+
+def number_class(items):
+    rels = sorted({r for r in (number_relation(items, i) for i in range(len(items))) if r})
+    return "+".join(rels) if rels else None
 
 
 def gen_attrs(rng, k, authors):
@@ -744,16 +827,29 @@ def part_hook(ctx, rep, hook, mdl, widths, cdata):
     attrs3 = [Attr("aaaaaaa1", "Dan Davison", "2021-08-22 18:20:19 -0700"),
               Attr("bbbbbbb2", "Dan Davison", "2020-07-18 15:34:43 -0400"),
               Attr("^cccccc3", "Nicholas Marriott", "2009-06-01 22:58:49 +0000")]
-    jobs = []   # (pal, fmt, sep, hist of (attr index, git), attrs, exhaustive?)
+    jobs = []   # (pal, fmt, sep, hist of (attr index, git), attrs, exhaustive?, numbers | None, columns | None)
     for npal in (2, 3):
         pal = PALETTE_POOL[:npal]
         for L in range(1, ctx.n(6, 9) + 1):
             for hist in itertools.product(range(3 if L <= 6 else 2), repeat=L):
-                jobs.append((pal, "{commit}", None, [(k, False) for k in hist], attrs3, True))
+                jobs.append((pal, "{commit}", None, [(k, False) for k in hist], attrs3, True, None, None))
     n_exh = len(jobs)
+    # all key histories over 2 keys x all ways the line number moves from one line to the next
+    # (+1 next line, +7 forward gap, -2 backward jump, 0 the same number again)
+    STEPS = (1, 7, -2, 0)
+    for npal in (2, 3):
+        pal = PALETTE_POOL[:npal]
+        for L in range(1, ctx.n(4, 5) + 1):
+            for hist in itertools.product(range(2), repeat=L):
+                for steps in itertools.product(STEPS, repeat=L - 1):
+                    nums = [10]
+                    for d in steps:
+                        nums.append(nums[-1] + d)
+                    jobs.append((pal, "{commit}", None, [(k, False) for k in hist], attrs3, True, nums, None))
+    n_exh_num = len(jobs) - n_exh
     confs = [(rng.sample(PALETTE_POOL, rng.randint(2, 5)), rng.choice(BLAME_FORMATS), rng.choice(SEP_FORMATS)[0])
              for _ in range(ctx.n(12, 60))]     # building a Config costs ~70 ms in the debug build
-    for _ in range(ctx.n(300, 20000)):
+    for j in range(ctx.n(420, 26000)):
         k = rng.randint(1, 6)
         attrs = gen_attrs(rng, k, AUTHORS_CLEAN + AUTHORS_ACCENT)
         pal, rfmt, rsep = rng.choice(confs)
@@ -762,14 +858,20 @@ def part_hook(ctx, rep, hook, mdl, widths, cdata):
         while len(hist) < L:       # runs of equal keys are common in real blame output
             kk = rng.randrange(k)
             hist += [(kk, False)] * rng.choice([1, 1, 2, 3, 5])
-        jobs.append((pal, rfmt, rsep, hist[:L], attrs, False))
+        # two thirds with plain consecutive numbers, the rest over the other ways a blame stream is numbered
+        scheme = "consecutive" if j % 3 else NUMBER_SCHEMES[(j // 3) % len(NUMBER_SCHEMES)]
+        nums, cols = gen_numbers(rng, L, scheme)
+        jobs.append((pal, rfmt, rsep, hist[:L], attrs, False, nums, cols))
     for _ in range(ctx.n(40, 400)):     # lines coloured by git mixed in (the delta_unreachable arms)
         k = rng.randint(1, 3)
         pal = PALETTE_POOL[:rng.randint(2, 3)]
         hist = [(rng.randrange(k), rng.random() < 0.4) for _ in range(rng.randint(2, 6))]
-        jobs.append((pal, "{commit}", None, hist, attrs3, False))
+        nums, cols = gen_numbers(rng, len(hist), rng.choice(NUMBER_SCHEMES)) if rng.random() < 0.5 else (None, None)
+        jobs.append((pal, "{commit}", None, hist, attrs3, False, nums, cols))
     rep.exhaustive = dict(what="all key histories of <= %d lines over 3 keys (2 keys beyond 6 lines) x palettes of 2 and 3 "
-                               "colours, driven through the real handle_blame_line" % ctx.n(6, 9), cases=n_exh)
+                               "colours; all key histories of <= %d lines over 2 keys x every sequence of line-number steps "
+                               "from {+1, +7, -2, 0} x palettes of 2 and 3 colours (%d streams); driven through the real "
+                               "handle_blame_line" % (ctx.n(6, 9), ctx.n(4, 5), n_exh_num), cases=n_exh + n_exh_num)
     by_cfg = {}
     for jb in jobs:
         by_cfg.setdefault((tuple(jb[0]), jb[1], jb[2]), []).append(jb)
@@ -777,10 +879,11 @@ def part_hook(ctx, rep, hook, mdl, widths, cdata):
     for (pal, fmt, sepf), js in by_cfg.items():
         args = cfg_args(list(pal), fmt, sepf)
         streams = []
-        for (_, _, _, hist, attrs, exh) in js:
+        for (_, _, _, hist, attrs, exh, nums, cols) in js:
             lines = []
             for n, (k, git) in enumerate(hist):
-                l = blame_line(attrs[k], n + 1, " code %d" % n if exh else gen_code(rng))
+                l = blame_line(attrs[k], nums[n] if nums else n + 1, " code %d" % n if exh else gen_code(rng),
+                               col=cols[n] if cols else None)
                 if git:
                     head, tail = l.split(")", 1)
                     l = "\x1b[36m" + head + ")\x1b[m" + tail
@@ -795,25 +898,29 @@ def part_hook(ctx, rep, hook, mdl, widths, cdata):
         mreqs += [model_stream_req(list(pal), items_f, sep_f, 8, widths, [(strip_sgr(l), g) for l, g in ls]) for ls in streams]
     model = iter(mdl.ask(mreqs) if mdl else [None] * len(mreqs))
     for (pal, fmt, sepf, args, js, streams), r in zip(meta_, resp):
-        for (_, _, _, hist, attrs, exh), lines, i in zip(js, streams, r):
+        for (_, _, _, hist, attrs, exh, nums, cols), lines, i in zip(js, streams, r):
             m = next(model)
             mixed = any(g for _, g in hist)
+            numbered = [dict(attr=attrs[k], n=(nums[n] if nums else n + 1)) for n, (k, _) in enumerate(hist)]
+            ncls = number_class(numbered)
             rep.case(key=("stream", pal, fmt, sepf, tuple(hist), tuple(l for l, _ in lines)),
                      nontrivial=len(hist) >= 2,
-                     sample=dict(op="blame.stream", palette=list(pal), format=fmt, keys=[k for k, _ in hist], impl=i[:300]))
+                     sample=dict(op="blame.stream", palette=list(pal), format=fmt, keys=[k for k, _ in hist],
+                                 numbers=nums, impl=i[:300]))
             rep.count("stream:" + ("exhaustive" if exh else ("mixed-git-colour" if mixed else "random")))
+            rep.count("stream-numbers:" + (ncls or "adjacent"))
             rep.count("stream-lines", len(hist))
             if m is not None:
                 rep.corr_case("blame.stream", same_resp(i, m),
                               dict(op="blame.stream", cfg=args, lines=[l for l, _ in lines], impl=i, model=m))
             replay = dict(kind="hook", cfg=args, req="blame.stream %d %s" % (len(lines), " ".join(hx(l) for l, _ in lines)),
-                          lines=[l for l, _ in lines])
+                          lines=[l for l, _ in lines], keys=[k for k, _ in hist], numbers=[x["n"] for x in numbered])
             if is_panic(i):
                 rep.count("stream:died")
                 sig = ("exit2:blame.rs:get_color-unreachable:git-coloured" if (mixed and i.startswith("DIED 2"))
-                       else "panic:hook-stream:" + ("git-coloured" if mixed else "clean"))
-                rep.violation(sig, "handle_blame_line aborts (delta_unreachable -> exit status 2) on a stream that mixes "
-                                   "lines coloured by git with uncoloured ones", replay)
+                       else "panic:hook-stream:" + ("git-coloured" if mixed else (ncls or "clean")))
+                rep.violation(sig, "handle_blame_line aborts on a blame stream (delta_unreachable -> exit status 2 when lines "
+                                   "coloured by git are mixed with uncoloured ones; otherwise a panic)", replay)
                 continue
             got = hook_stream_items(i)
             if got is None or mixed:
@@ -822,18 +929,22 @@ def part_hook(ctx, rep, hook, mdl, widths, cdata):
             colours, last = [], {}
             for n, ((k, _), (handled, c, row)) in enumerate(zip(hist, got)):
                 t = attrs[k].tup()
+                # input class of a failure at this row: how its number relates to the row above, else the stream's
+                cl = number_relation(numbered, n) or ncls or "clean"
                 if not handled:
-                    rep.violation("hook:unhandled:clean", "a well-formed blame line is not handled", replay)
+                    rep.violation("hook:unhandled:" + (ncls or "clean"), "a well-formed blame line is not handled", replay)
                     break
                 if n > 0:
                     pt = attrs[hist[n - 1][0]].tup()
                     pc = colours[-1]
                     if pt == t and c != pc:
-                        rep.violation("hook:same-attribution-same-colour:clean", "same key, different colour", replay)
+                        rep.violation("hook:same-attribution-same-colour:" + cl,
+                                      "consecutive lines with the same attribution get different colours", dict(replay, row_index=n))
                     if pt != t and c == pc:
-                        rep.violation("hook:neighbour-differs:clean", "different keys share a colour", replay)
+                        rep.violation("hook:neighbour-differs:" + cl, "different keys share a colour", dict(replay, row_index=n))
                     if pt != t and t in last and last[t] != pc and c != last[t]:
-                        rep.violation("hook:colour-stable-unless-collision:clean", "key lost its colour without a collision", replay)
+                        rep.violation("hook:colour-stable-unless-collision:" + cl,
+                                      "an attribution lost its colour without a collision", dict(replay, row_index=n))
                 colours.append(c)
                 last[t] = c
 
